@@ -112,13 +112,15 @@ where
         info!(proxy = self.proxy_protocol.is_some(), "starting listener");
         let listener = TcpListener::bind(address).await?;
         loop {
-            // accept the next incoming connection
+            // accept the next incoming connection (a requested shutdown always takes precedence over a pending
+            // connection, such that no connection that arrives after the request is served anymore)
             let (stream, addr) = select! {
-                accepted = listener.accept() => accepted?,
+                biased;
                 _ = stop.cancelled() => {
                     info!("stopping listener");
                     break;
                 },
+                accepted = listener.accept() => accepted?,
             };
             self.handle(stream, addr).await;
         }
